@@ -25,6 +25,14 @@ ALPHABET = ["(", ")", "[", "]", "{", "}", "=", "#", "<", "<=", ">", ">=", ":=", 
 DECL_KW = ("proc", "type")
 
 
+SHAPES = [
+    ("type", "type @ = array [ 3 ] of int ;"),
+    ("proc-empty", "proc @ ( ) { }"),
+    ("proc-vars", "proc @ ( x : int ) { var y : int ; var z : array [ 2 ] of int ; }"),
+    ("proc-stmts", "proc @ ( ref x : int ) { var y : int ; y := x + 1 ; if ( y < 2 ) x := y ; else { } while ( x > 0 ) x := x - 1 ; @ ( y ) ; }"),
+]
+
+
 def nums(s):
     return " ".join(str(ord(x)) for x in s)
 
@@ -134,6 +142,22 @@ def run(ctx):
         cls = c["expect"].split(":", 1)[1] if c["expect"].startswith("known:") else None
         cases.insert(0, (line, dict(prog="corpus:" + f, decl=c["decl"], damage=("corpus", 0, None), text1=c["original"],
                                     text2=c["damaged"], cls=cls)))
+    # every ordered pair of declaration shapes (the damaged one first), exhaustive damages: recovery sets differ by what
+    # the damaged declaration contains (nothing / only variable declarations / statements) and by what follows it
+    import random as _r2
+    for a_name, a in SHAPES:
+        for b_name, b in SHAPES:
+            base = [[(t, False) for t in a.replace("@", "a1").split()], [(t, False) for t in b.replace("@", "b2").split()],
+                    [(t, False) for t in "proc main ( ) { }".split()]]
+            if rng.random() < 0.5:
+                base[1].insert(0, ("// doc\n", True))
+            text1 = render_plain([t for d in base for t, _ in d], _r2.Random(7))
+            for dmg in damages(base, 0):
+                dd = apply_damage(base, 0, dmg)
+                text2 = render_plain([t for d in dd for t, _ in d], _r2.Random(7))
+                line = "18 %d %d %s %d %s" % (0, len(text1), nums(text1), len(text2), nums(text2))
+                cases.append((line, dict(prog="shape:%s+%s" % (a_name, b_name), decl=0, damage=dmg, text1=text1, text2=text2,
+                                         cls=classify(base, 0, dmg))))
     lines = [c[0] for c in cases]
     out = common.run_lines(os.path.join(bindir, "dump_decl"), lines)
     fails, known, skipped, panics = [], {}, 0, []
